@@ -3932,7 +3932,7 @@ class Wallet(object):
 
         :param output_arr: List of output as Output objects or tuples with address and amount. Must contain at least one item. Example: [('mxdLD8SAGS9fe2EeCXALDHcdTTbppMHp8N', 5000000)]
         :type output_arr: list of Output, tuple
-        :param input_arr: List of inputs as Input objects or tuples with reference to a UTXO, a wallet key and value. The format is [(txid, output_n, key_ids, value, signatures, unlocking_script, address)]
+        :param input_arr: List of inputs as Input objects or tuples with reference to a UTXO, a wallet key and value. The format is [(txid, output_n, key_ids, value, signatures, unlocking_script, address, sequence)]
         :type input_arr: list of Input, tuple
         :param input_key_id: Limit UTXO's search for inputs to this key_id. Only valid if no input array is specified
         :type input_key_id: int
@@ -4020,6 +4020,7 @@ class Wallet(object):
             sequence = SEQUENCE_REPLACE_BY_FEE
         elif 0 < transaction.locktime < 0xffffffff:
             sequence = SEQUENCE_ENABLE_LOCKTIME
+        default_sequence = sequence
         amount_total_input = 0
         if input_arr is None:
             selected_utxos = self.select_inputs(amount_total_output + fee_estimate, transaction.network.dust_amount,
@@ -4067,6 +4068,7 @@ class Wallet(object):
                     signatures = None if len(inp) <= 4 else inp[4]
                     unlocking_script = b'' if len(inp) <= 5 else inp[5]
                     address = '' if len(inp) <= 6 else inp[6]
+                    sequence = default_sequence if len(inp) <= 7 or inp[7] is None else inp[7]
                     witness_type = self.witness_type
                 # Get key_ids, value from Db if not specified
                 if not (key_id and value and unlocking_script_type):
@@ -4247,7 +4249,7 @@ class Wallet(object):
                 script = b'' if 'script' not in i else i['script']
                 address = '' if 'address' not in i else i['address']
                 input_arr.append((i['prev_txid'], i['output_n'], None, int(i['value']), signatures, script,
-                                  address))
+                                  address, i.get('sequence')))
             output_arr = []
             for o in t['outputs']:
                 output_arr.append((o['address'], int(o['value'])))
